@@ -249,6 +249,13 @@ def obligations(tier):
 
     for n, ws, kc in ((2, True, True), (3, True, False), (3, False, True)) if tier == "quick" else [(n, ws, kc) for n in (2, 3) for ws in (False, True) for kc in (False, True)]:
         obs.append(Obligation(f"atoms-written-n{n}-{'ws' if ws else 'fixed'}-{'kc' if kc else 'nokc'}", c08.h_atom_list, dict(n=n, ws=ws, kc=kc), group="atoms-written", time_cap=1200))
+    # --whitespace keeps every atom line, also HETATM lines whose serial has five digits (glued to the record name)
+    for rtype in ("ATOM", "HETATM"):
+        obs.append(Obligation(f"whitespace-keeps-lines-{rtype}", c08.h_roundtrip, dict(focus=["serial"], rtype=rtype, ws=True, kc=False, serial_max=99999), group="roundtrip", time_cap=1200))
+    # after a chain is split at a hidden chain end the chain view still lists every residue once (C02's termini harness)
+    from . import c02
+
+    obs.append(Obligation("chain-view-hidden-ends", c02.h_termini, dict(layout="hidden-ends", strict=True), group="chain-view", time_cap=3000, max_paths=100000))
     # the carboxylic-acid optimisation ends with the atom set of the topology whatever sequence of attempts ran (C14's site harness)
     from . import c14
 
